@@ -17,10 +17,26 @@ import (
 
 var symRe = regexp.MustCompile(`[A-Za-z_$@!.~][A-Za-z0-9_$@!.~\-]*`)
 
-func (q *Query) smt(withModel bool) string {
+func (q *Query) smt(withModel bool) string { return q.smtOpt(withModel, false) }
+
+func isQuantified(h string) bool {
+	return strings.Contains(h, "(forall ") || strings.Contains(h, "(exists ")
+}
+
+// smtOpt: ground=true drops every quantified hypothesis (sound for proving: fewer hypotheses)
+func (q *Query) smtOpt(withModel, ground bool) string {
 	fx := q.fx
 	var sb strings.Builder
-	body := strings.Join(q.Hyps, "\n") + "\n" + q.Goal
+	hyps := q.Hyps
+	if ground {
+		hyps = nil
+		for _, h := range q.Hyps {
+			if !isQuantified(h) {
+				hyps = append(hyps, h)
+			}
+		}
+	}
+	body := strings.Join(hyps, "\n") + "\n" + q.Goal
 	used := map[string]bool{}
 	for _, s := range symRe.FindAllString(body, -1) {
 		used[s] = true
@@ -34,12 +50,35 @@ func (q *Query) smt(withModel bool) string {
 		}
 		switch kind {
 		case 0:
-			allocAx = append(allocAx, fmt.Sprintf("(forall ((o Int)) (! (and (<= 0 (select %s o)) (<= (select %s o) alloc$top@entry)) :pattern ((select %s o))))", name, name, name))
+			allocAx = append(allocAx, fmt.Sprintf("(forall ((o Int)) (! (=> (<= o alloc$top@entry) (and (<= 0 (select %s o)) (<= (select %s o) alloc$top@entry))) :pattern ((select %s o))))", name, name, name))
 		case 1:
 			ls := fx.mode.lenSort()
-			allocAx = append(allocAx, fmt.Sprintf("(forall ((o Int) (i %s)) (! (and (<= 0 (select (select %s o) i)) (<= (select (select %s o) i) alloc$top@entry)) :pattern ((select (select %s o) i))))", ls, name, name, name))
+			allocAx = append(allocAx, fmt.Sprintf("(forall ((o Int) (i %s)) (! (=> (<= o alloc$top@entry) (and (<= 0 (select (select %s o) i)) (<= (select (select %s o) i) alloc$top@entry))) :pattern ((select (select %s o) i))))", ls, name, name, name))
 		}
 		used["alloc$top@entry"] = true
+	}
+	// elements of integer arrays at function entry are values of their type
+	for key, et := range fx.intElemKeys {
+		name := key + "@0"
+		if !used[name] {
+			continue
+		}
+		rf := fx.ar.rangeFactRO(fmt.Sprintf("(select (select %s o) i)", name), et)
+		allocAx = append(allocAx, fmt.Sprintf("(forall ((o Int) (i Int)) (! %s :pattern ((select (select %s o) i))))", rf, name))
+	}
+	// package-level error values: non-nil, pairwise distinct, allocated before entry
+	var errData []string
+	for g := range fx.eng.errGlobals {
+		if used[g+"!tag@0"] || used[g+"!data@0"] {
+			used[g+"!tag@0"], used[g+"!data@0"] = true, true
+			allocAx = append(allocAx, fmt.Sprintf("(and (> %s!tag@0 0) (> %s!data@0 0) (<= %s!data@0 alloc$top@entry))", g, g, g))
+			errData = append(errData, g+"!data@0")
+			used["alloc$top@entry"] = true
+		}
+	}
+	sort.Strings(errData)
+	if len(errData) > 1 {
+		allocAx = append(allocAx, "(distinct "+strings.Join(errData, " ")+")")
 	}
 	sort.Strings(allocAx)
 	if withModel {
@@ -74,9 +113,12 @@ func (q *Query) smt(withModel bool) string {
 		sb.WriteString("(assert (distinct " + strings.Join(strs, " ") + "))\n")
 	}
 	for _, a := range allocAx {
+		if ground && isQuantified(a) {
+			continue
+		}
 		sb.WriteString("(assert " + a + ")\n")
 	}
-	for _, h := range q.Hyps {
+	for _, h := range hyps {
 		sb.WriteString("(assert " + h + ")\n")
 	}
 	sb.WriteString("(assert (not " + q.Goal + "))\n(check-sat)\n")
@@ -148,6 +190,7 @@ type Solver struct {
 	perSolver map[string]*solverStat
 	keep     bool
 	crossCheck bool
+	progress bool
 }
 
 type solverStat struct {
@@ -198,6 +241,9 @@ func (s *Solver) solveOne(q *Query) {
 	}
 	s.mu.Unlock()
 	file := filepath.Join(s.dir, h+".smt2")
+	if s.keep {
+		text = "; " + q.Obl + " path=" + q.Trail + "\n" + text
+	}
 	if err := os.WriteFile(file, []byte(text), 0o644); err != nil {
 		q.Status, q.Output = "error", err.Error()
 		return
@@ -205,8 +251,33 @@ func (s *Solver) solveOne(q *Query) {
 	if !s.keep {
 		defer os.Remove(file)
 	}
+	// stage 0: ground query (quantified hypotheses dropped) – unsat here is unsat of the full query
+	var r solveResult
+	gfile := filepath.Join(s.dir, h+".g.smt2")
+	if !q.Canary {
+		_ = os.WriteFile(gfile, []byte(q.smtOpt(true, true)), 0o644)
+		gr := runSolver(context.Background(), solvers[0], gfile, 2, s.seed)
+		gr.solver += "/ground"
+		s.note(gr)
+		if !s.keep {
+			os.Remove(gfile)
+		}
+		if gr.status == "unsat" {
+			q.Status, q.Solver, q.Seconds, q.Output = gr.status, gr.solver, gr.seconds, ""
+			s.mu.Lock()
+			s.cache[h] = &gr
+			s.mu.Unlock()
+			if s.progress {
+				fmt.Fprintf(os.Stderr, "  [%s %.1fs %s] %s  path=%s\n", q.Status, q.Seconds, q.Solver, q.Obl, q.Trail)
+			}
+			return
+		}
+		if gr.status == "sat" {
+			q.GroundModel = gr.output
+		}
+	}
 	// stage 1: the fast solver alone, short limit
-	r := runSolver(context.Background(), solvers[0], file, s.quickT, s.seed)
+	r = runSolver(context.Background(), solvers[0], file, s.quickT, s.seed)
 	s.note(r)
 	if r.status != "unsat" && r.status != "sat" {
 		// stage 2: race all three with the long limit
@@ -233,6 +304,51 @@ func (s *Solver) solveOne(q *Query) {
 		cancel()
 		r = best
 	}
+	if r.status != "unsat" && !q.Canary {
+		// diagnosis: which conjunct of the goal fails?
+		if parts := splitGoal(q.Goal); len(parts) > 1 {
+			var bad []string
+			for i, p := range parts {
+				sub := &Query{Obl: q.Obl, Kind: q.Kind, Hyps: q.Hyps, Goal: p, fx: q.fx}
+				sfile := filepath.Join(s.dir, fmt.Sprintf("%s.c%d.smt2", h, i))
+				_ = os.WriteFile(sfile, []byte(sub.smt(false)), 0o644)
+				sr := runSolver(context.Background(), solvers[0], sfile, s.quickT, s.seed)
+				if sr.status != "unsat" {
+					sr2 := runSolver(context.Background(), solvers[1], sfile, s.quickT, s.seed)
+					if sr2.status == "unsat" {
+						sr = sr2
+					}
+				}
+				if sr.status != "unsat" {
+					msg := fmt.Sprintf("conjunct %d/%d (%s): %s", i+1, len(parts), sr.status, truncate(p, 300))
+					if !isQuantified(p) {
+						// candidate values from the quantifier-free weakening
+						atoms := selectAtoms(p)
+						if len(atoms) > 0 {
+							gtext := sub.smtOpt(true, true) + "(get-value (" + strings.Join(atoms, " ") + "))\n"
+							gtext = strings.Replace(gtext, "(get-model)\n", "", 1)
+							gf := filepath.Join(s.dir, fmt.Sprintf("%s.c%d.g.smt2", h, i))
+							_ = os.WriteFile(gf, []byte(gtext), 0o644)
+							gr := runSolver(context.Background(), solvers[0], gf, 3, s.seed)
+							if gr.status == "sat" {
+								msg += "\n           candidate (ground) values: " + strings.Join(strings.Fields(strings.TrimPrefix(gr.output, "sat")), " ")
+							} else {
+								msg += "\n           ground weakening: " + gr.status
+							}
+							if !s.keep {
+								os.Remove(gf)
+							}
+						}
+					}
+					bad = append(bad, msg)
+				}
+				if !s.keep {
+					os.Remove(sfile)
+				}
+			}
+			q.Diag = bad
+		}
+	}
 	if r.status == "sat" || (q.Canary && r.status == "unsat") {
 		// obtain a model for the report
 		mfile := filepath.Join(s.dir, h+".m.smt2")
@@ -250,6 +366,9 @@ func (s *Solver) solveOne(q *Query) {
 		}
 	}
 	q.Status, q.Solver, q.Seconds, q.Output = r.status, r.solver, r.seconds, truncate(r.output, 4000)
+	if s.progress {
+		fmt.Fprintf(os.Stderr, "  [%s %.1fs %s] %s  path=%s\n", q.Status, q.Seconds, q.Solver, q.Obl, q.Trail)
+	}
 	s.mu.Lock()
 	s.cache[h] = &r
 	s.mu.Unlock()
@@ -260,4 +379,38 @@ func truncate(s string, n int) string {
 		return s[:n] + "…"
 	}
 	return s
+}
+
+// selectAtoms: maximal (select ...) terms and free constants of a quantifier-free term
+func selectAtoms(t string) []string {
+	seen := map[string]bool{}
+	var out []string
+	var walk func(s string)
+	walk = func(s string) {
+		op, args := sexprArgs(s)
+		if op == "" {
+			if s != "" && !numRe.MatchString(s) && s != "true" && s != "false" && (strings.Contains(s, "@") || strings.Contains(s, "$")) {
+				if !seen[s] {
+					seen[s] = true
+					out = append(out, s)
+				}
+			}
+			return
+		}
+		if op == "select" {
+			if !seen[s] {
+				seen[s] = true
+				out = append(out, s)
+			}
+			return
+		}
+		for _, a := range args {
+			walk(a)
+		}
+	}
+	walk(t)
+	if len(out) > 24 {
+		out = out[:24]
+	}
+	return out
 }
